@@ -346,14 +346,28 @@ func ruleResultShapes(c *Ctx, r *Report, clause string, pkgPrefixes ...string) {
 // Library calls and literals are not judged here (an idiom swap changes them freely); the
 // skip / early-exit inventories judge those where an element or the rest of a function is lost.
 
+// ruleDecisionInputsOf: the same for named functions.
+func ruleDecisionInputsOf(c *Ctx, r *Report, clause string, fns ...string) {
+	var fis []*FuncInfo
+	for _, k := range fns {
+		if fi := c.W.fn(k); fi != nil {
+			fis = append(fis, fi)
+		}
+	}
+	decisionInputsOf(c, r, clause, fis)
+}
+
 func ruleDecisionInputs(c *Ctx, r *Report, clause string, pkgPrefixes ...string) {
+	decisionInputsOf(c, r, clause, c.W.funcsOfPkgPrefixes(pkgPrefixes...))
+}
+
+func decisionInputsOf(c *Ctx, r *Report, clause string, fis []*FuncInfo) {
 	w := c.W
 	type agg struct {
 		fns, sites []string
 		viol       string
 	}
 	per := map[string]*agg{}
-	fis := w.funcsOfPkgPrefixes(pkgPrefixes...)
 	sort.Slice(fis, func(i, j int) bool { return fis[i].Key < fis[j].Key })
 	for _, fi := range fis {
 		if w.isNewName(fi.Key) || fi.Decl.Body == nil {
@@ -452,8 +466,10 @@ func (w *World) newToNeighbourhood(verifDir string, fi *FuncInfo, unknown []stri
 	return out
 }
 
-// buildNeighbours: per function, the reviewed gleece functions it calls and is called by
-// (statically, on today's tree).
+// buildNeighbours: per function, the gleece functions it called and was called by on the
+// reviewed tree (the `gcall:` entries of tables/functions.json): the functions a condition can
+// have moved from or to without changing what is decided. A callee that is consulted only now
+// is not a neighbour - asking it is the new decision.
 func (w *World) buildNeighbours() {
 	if w.neighbours != nil {
 		return
@@ -467,26 +483,16 @@ func (w *World) buildNeighbours() {
 		}
 		w.neighbours[a] = append(w.neighbours[a], b)
 	}
-	for k, fi := range w.Funcs {
-		if fi.Decl.Body == nil {
-			continue
-		}
-		host := w.hostKey(k)
-		ast.Inspect(fi.Decl.Body, func(n ast.Node) bool {
-			if cl, ok := n.(*ast.CallExpr); ok {
-				if name := calleeOfCall(fi.Pkg.TypesInfo, cl); name != "" && w.Funcs[name] != nil {
-					for _, h := range hostParts(host) {
-						for _, g := range hostParts(w.hostKey(name)) {
-							if h != g {
-								add(h, g)
-								add(g, h)
-							}
-						}
-					}
+	for fn, fp := range w.base.prints {
+		for _, p := range fp {
+			if strings.HasPrefix(p, "gcall:") {
+				callee := strings.TrimPrefix(p, "gcall:")
+				if w.base.fns[callee] && callee != fn {
+					add(fn, callee)
+					add(callee, fn)
 				}
 			}
-			return true
-		})
+		}
 	}
 }
 
